@@ -1,6 +1,6 @@
 (* Property C19 — invalid configurations are rejected, not silently mis-computed. *)
 From Coq Require Import String ZArith List Bool Arith.
-From TLX Require Import Model.Domain Proofs.C19Facts Gen.Guards.
+From TLX Require Import Model.Domain Model.ConvNet Model.GenNet Proofs.C19Facts Proofs.PoolFacts Gen.Guards.
 Import ListNotations.
 
 (* every guard that the decision model below mirrors is present in the current source *)
@@ -18,6 +18,28 @@ Proof. exact conv_ctor_reject. Qed.
 Theorem C19_conv_ctor_accepts : forall c, conv_ctor_domain c = true -> conv_ctor_accepts c = true.
 Proof. exact conv_ctor_accept. Qed.
 
+(* GroupSum: a non-positive number of groups is refused at construction *)
+Theorem C19_groupsum_ctor_rejects : forall k, groupsum_ctor_domain k = false -> groupsum_ctor_accepts k = false.
+Proof. exact groupsum_ctor_reject. Qed.
+Theorem C19_groupsum_ctor_accepts : forall k, groupsum_ctor_domain k = true -> groupsum_ctor_accepts k = true.
+Proof. exact groupsum_ctor_accept. Qed.
+
+(* an OrPooling handed to the compiler: the guard decides exactly the domain of max pooling, and what it lets
+   through satisfies the well-formedness condition of the generator theorem (C02_logic_net) *)
+Theorem C19_pool_compile_decides : forall k s p dims, pool_compile_accepts k s p dims = pool_domain k s p dims.
+Proof. exact pool_compile_decides. Qed.
+Theorem C19_pool_accepted_wf : forall ps,
+  Forall (fun n => 0 < n) (pl_dims ps) ->
+  pool_compile_accepts (Z.of_nat (pl_kernel ps)) (Z.of_nat (pl_stride ps)) (Z.of_nat (pl_pad ps))
+                       (map Z.of_nat (pl_dims ps)) = true ->
+  wf_pool ps = true.
+Proof. exact pool_compile_accepts_wf. Qed.
+
+(* CompiledLogicNet.forward: the shape guard decides exactly "the samples have the declared layout" *)
+Theorem C19_compiled_forward_decides : forall d lf sh, d <> [] ->
+  compiled_forward_accepts d lf sh = compiled_forward_domain d lf sh.
+Proof. exact compiled_forward_decides. Qed.
+
 Theorem C19_compiler_rejects : forall b cc n, compiler_domain b cc n = false -> compiler_accepts b cc n = false.
 Proof. exact compiler_reject. Qed.
 
@@ -31,8 +53,18 @@ Proof. exact (conj eq_refl eq_refl). Qed.
 Example C19_example :
   dense_ctor_accepts {| dc_in := 5; dc_out := 11; dc_connections := "unique"; dc_param := "raw"; dc_weight_init := "residual"; dc_impl := "" |} = false
   /\ dense_ctor_accepts {| dc_in := 5; dc_out := 10; dc_connections := "unique"; dc_param := "raw"; dc_weight_init := "residual"; dc_impl := "" |} = true
-  /\ conv_ctor_accepts {| cc_dims := [4; 4]; cc_rf := [3; 3]; cc_channels := 1; cc_depth := 2; cc_stride := 4; cc_pad := 0;
-                          cc_connections := "random"; cc_param := "raw"; cc_weight_init := "residual"; cc_sampling := "soft" |} = false.
+  /\ conv_ctor_accepts {| cc_dims := [4; 4]; cc_rf := [3; 3]; cc_channels := 1; cc_depth := 2; cc_stride := 4; cc_pad := 0%Z;
+                          cc_connections := "random"; cc_param := "raw"; cc_weight_init := "residual"; cc_sampling := "soft";
+                          cc_impl := "" |} = false
+  /\ conv_ctor_accepts {| cc_dims := [6; 6]; cc_rf := [3; 3]; cc_channels := 1; cc_depth := 2; cc_stride := 1; cc_pad := (-1)%Z;
+                          cc_connections := "random"; cc_param := "raw"; cc_weight_init := "residual"; cc_sampling := "soft";
+                          cc_impl := "" |} = false
+  /\ conv_ctor_accepts {| cc_dims := [6; 6]; cc_rf := [3; 3]; cc_channels := 1; cc_depth := 2; cc_stride := 1; cc_pad := 1%Z;
+                          cc_connections := "unique"; cc_param := "walsh"; cc_weight_init := "random"; cc_sampling := "hard";
+                          cc_impl := "python" |} = true
+  /\ compiled_forward_accepts [2; 4; 6] false [5; 2; 6; 4] = false /\ compiled_forward_accepts [2; 4; 6] false [5; 48] = true
+  /\ pool_compile_accepts 2 2 2 [4; 4]%Z = false /\ pool_compile_accepts 5 1 0 [4; 4]%Z = false
+  /\ pool_compile_accepts 3 2 1 [4; 4]%Z = true.
 Proof. repeat split; vm_compute; reflexivity. Qed.
 
 Eval compute in "PA:C19_guards_present"%string. Print Assumptions C19_guards_present.
@@ -43,3 +75,8 @@ Eval compute in "PA:C19_conv_ctor_accepts"%string. Print Assumptions C19_conv_ct
 Eval compute in "PA:C19_compiler_rejects"%string. Print Assumptions C19_compiler_rejects.
 Eval compute in "PA:C19_gumbel_rejects"%string. Print Assumptions C19_gumbel_rejects.
 Eval compute in "PA:C19_conv_default_padding"%string. Print Assumptions C19_conv_default_padding.
+Eval compute in "PA:C19_groupsum_ctor_rejects"%string. Print Assumptions C19_groupsum_ctor_rejects.
+Eval compute in "PA:C19_groupsum_ctor_accepts"%string. Print Assumptions C19_groupsum_ctor_accepts.
+Eval compute in "PA:C19_pool_compile_decides"%string. Print Assumptions C19_pool_compile_decides.
+Eval compute in "PA:C19_pool_accepted_wf"%string. Print Assumptions C19_pool_accepted_wf.
+Eval compute in "PA:C19_compiled_forward_decides"%string. Print Assumptions C19_compiled_forward_decides.
